@@ -18,6 +18,7 @@ def run(ctx):
     ctx.run(M.ord13_top_n_limit_zero)
     ctx.run(S.pan4_constant_result_columns)
     ctx.run(OP.pan8_range_arithmetic)
+    ctx.run(SH.flw26_row_and_column_view_one_window)
     return ctx.finish(
         'Static analysis of compiler MIR + syntax tree: the text -> AST -> Query -> task shell has '
         'no explicit panic source (unwrap/expect/panic!/assert/index) except tabled, reasoned '
